@@ -97,8 +97,21 @@ func (d *downloaderPP) Download(ctx context.Context, fromBlock uint64, downloade
 			// context cancelled while waiting
 			continue
 		}
-		for _, block := range d.GetEventsByBlockRange(ctx, fromBlock, lastBlock) {
+		// The header of the tip is read before the events and the tip is handed over even when it
+		// carries no events, so that the reorg detector tracks the end of every fetched range: a
+		// block without events that is later replaced by one with events changes the hash of that
+		// tip, the reorg is reported and the range is fetched again. Without it nothing signals a
+		// reorg of blocks that had no events and their new events would never be indexed.
+		lastBlockHeader, isCanceled := d.GetBlockHeader(ctx, lastBlock)
+		if isCanceled {
+			continue
+		}
+		blocks := d.GetEventsByBlockRange(ctx, fromBlock, lastBlock)
+		for _, block := range blocks {
 			downloadedCh <- *block
+		}
+		if len(blocks) == 0 || blocks[len(blocks)-1].Num < lastBlock {
+			downloadedCh <- sync.EVMBlock{EVMBlockHeader: lastBlockHeader}
 		}
 		fromBlock = lastBlock + 1
 	}
